@@ -249,7 +249,7 @@ pub fn run(ctx: &mut Ctx) {
         let flat = Flat::new(&tree);
         // the same game with names whose Hash collides almost always (equal names still compare
         // equal): the hashing importer must not depend on hashes being distinct
-        let weak_game = if rng.chance(0.5) { bridge::build_weak(&tree).ok() } else { None };
+        let weak_game = if rng.chance(0.5) && bridge::weak_presentable(&tree) { bridge::build_weak(&tree).ok() } else { None };
         for _ in 0..8 {
             let (c0, t0) = candidate(rng, &flat, 0);
             let (c1, t1) = candidate(rng, &flat, 1);
@@ -287,10 +287,12 @@ pub fn run(ctx: &mut Ctx) {
                 return;
             }
             if let Some(wg) = &weak_game {
-                let weaken = |c: &Vec<(String, Vec<(String, f64)>)>| -> Vec<(bridge::WeakKey, Vec<(bridge::WeakKey, f64)>)> {
-                    c.iter().map(|(i, acts)| (bridge::WeakKey(i.clone()), acts.iter().map(|(a, w)| (bridge::WeakKey(a.clone()), *w)).collect())).collect()
+                let mut salt = case_hash | 1;
+                let mut weaken = |c: &Vec<(String, Vec<(String, f64)>)>| -> Vec<(bridge::WeakKey, Vec<(bridge::WeakKey, f64)>)> {
+                    c.iter().map(|(i, acts)| (bridge::weak(i, &mut salt), acts.iter().map(|(a, w)| (bridge::weak(a, &mut salt), *w)).collect())).collect()
                 };
-                let wf = catch(|| wg.from_named([weaken(&c0), weaken(&c1)]).map(|s| s.verif_probs().map(|v| v.to_vec())));
+                let (w0, w1) = (weaken(&c0), weaken(&c1));
+                let wf = catch(|| wg.from_named([w0.clone(), w1.clone()]).map(|s| s.verif_probs().map(|v| v.to_vec())));
                 ctx.count("candidates_also_imported_with_colliding_hash_keys", 1);
                 let bad = match (&fast, &wf) {
                     (_, Err(m)) => Some(format!("from_named panicked with colliding-hash keys: {}", m)),
@@ -390,7 +392,7 @@ pub fn run(ctx: &mut Ctx) {
         }
     });
     ctx.finish(crate::report::extra(
-        "cases = (game, candidate named strategy for both players): a valid weight table (random profile x scale in {1,7,1e-3,1e200,1e-200}) with 0-3 mutations per player from {shuffle, duplicate action entry, repeated infoset with a subset of actions, dropped infoset, unknown infoset, other player's infoset, illegal action, special weight from {-1,-0,0,5e-324,1e-300,1,1e300,NaN,+-inf}, all-zero infoset, omitted action, empty action list, overflowing total, wrong action on a single-action infoset}. O4 computes the set of violated import rules and the expected weight/total table (last write wins); required: Ok iff the set is empty, Err(kind) in the set, stored probabilities (hook verif_probs) within 4 ulp of expected, and from_named == from_named_eq (same Ok value or same error kind); for half of the games the candidates are also imported into the same game built with a key type whose Hash collides almost always (only the parity of the name length is hashed; Eq is exact): same verdict, bit-identical stored probabilities. distinct counted per judged candidate (cases are generated from independent streams); non-trivial = every candidate.",
+        "cases = (game, candidate named strategy for both players): a valid weight table (random profile x scale in {1,7,1e-3,1e200,1e-200}) with 0-3 mutations per player from {shuffle, duplicate action entry, repeated infoset with a subset of actions, dropped infoset, unknown infoset, other player's infoset, illegal action, special weight from {-1,-0,0,5e-324,1e-300,1,1e300,NaN,+-inf}, all-zero infoset, omitted action, empty action list, overflowing total, wrong action on a single-action infoset}. O4 computes the set of violated import rules and the expected weight/total table (last write wins); required: Ok iff the set is empty, Err(kind) in the set, stored probabilities (hook verif_probs) within 4 ulp of expected, and from_named == from_named_eq (same Ok value or same error kind); for half of the games the candidates are also imported into the same game built with a key type whose Hash collides almost always and whose Eq ignores case (only the parity of the name length is hashed; every occurrence of a name in random case): same verdict, bit-identical stored probabilities. distinct counted per judged candidate (cases are generated from independent streams); non-trivial = every candidate.",
         &["a single-action infoset mentioned with an empty action list is don't-care (the documentation does not say whether that covers it)"],
     ));
 }
